@@ -18,6 +18,7 @@ def tyOf (tok : String) : Option Ty :=
   | "s16b" => some ⟨.strct, 16, 40, false, 0⟩ | "s24" => some ⟨.strct, 24, 41, false, 0⟩ | "a12" => some ⟨.array, 12, 42, false, 0⟩
   | "map" => some ⟨.map, 8, 43, false, 0⟩ | "ch" => some ⟨.chan, 8, 44, false, 0⟩
   | "ictx" => some ⟨.ptr, 8, idMockerICtx, false, 0⟩
+  | "dup" => some ⟨.strct, 16, 45, false, 0⟩ | "dupl" => some ⟨.strct, 4, 46, false, 0⟩ | "dupp" => some ⟨.strct, 1, 47, false, 0⟩
   | _ => none
 
 def list? (s : String) : List String := if s = "-" then [] else s.splitOn ","
